@@ -25,7 +25,7 @@ def main (args : List String) : IO UInt32 := do
   | ["c16"] => Driver.lineLoop stdin stdout ([] : List (List Nat)) Driver.C16.step; return 0
   | ["c17"] => Driver.lineLoop stdin stdout () Driver.C17.step; return 0
   | ["c13"] => Driver.lineLoop stdin stdout () Driver.C13.step; return 0
-  | ["c03"] => Driver.lineLoop stdin stdout (⟨Zix.Hash.new, [], false⟩ : Driver.C03.St) Driver.C03.step; return 0
+  | ["c03"] => Driver.lineLoop stdin stdout ({ t := Zix.Hash.new, keys := [], failNext := false } : Driver.C03.St) Driver.C03.step; return 0
   | ["c06"] => Driver.lineLoop stdin stdout (Zix.Avl.Tree.new false) Driver.C06.step; return 0
   | ["c01"] => Driver.lineLoop stdin stdout (⟨true, ⟨6, 3, 6⟩, none, ⟨1, 0⟩, none, none⟩ : Driver.C01.St) Driver.C01.step; return 0
   | ["c01", "nocmp"] => Driver.lineLoop stdin stdout (⟨false, ⟨6, 3, 6⟩, none, ⟨1, 0⟩, none, none⟩ : Driver.C01.St) Driver.C01.step; return 0
